@@ -59,6 +59,17 @@ CHECKS = {
         "note": "Reference rotation uses math.cos/sin; tolerance 1e-9*(1+|p|+|t|); point-mass states at rest (no "
                 "heading) are discarded; traffic-light shape, areas and histories are not claimed components.",
     },
+    "C04": {
+        "technique": "property-based testing: Hypothesis-generated obstacles of every role / shape / state class x time "
+                     "steps around the horizon; reference occupancy computed from the recipe; sampled-enclosure oracle "
+                     "for uncertain states; differential check of scenario-level queries against per-obstacle references",
+        "text": "Thousands of obstacles per run (trajectories starting at t0+1 / t0 / t0+2, set-based with interval "
+                "times, PM and custom (vx,vy) headings), t from 3 before to 3 after the horizon; uncertain states with "
+                "rect/circle/polygon regions and angle intervals, sampled at ends/middle/critical angles; scenario "
+                "queries with all filters. Exploration only.",
+        "note": "Obstacle-shape convention (shapes centred at the origin); enclosure is checked on sampled admissible "
+                "(p, psi) only; tolerance 1e-9*(1+scale).",
+    },
 }
 
 NOT_APPLICABLE = [{"property_id": p, "reason": "check not built yet (work in progress; will be claimed once its "
